@@ -1023,6 +1023,95 @@ class Gen:
         f.probe = t
         return f
 
+    def narrow_probe_function(self, idx):
+        """range-narrowed arithmetic: operands narrowed by %, &, min, a comparison guard or an assert, then + - * on them, with
+        inputs at the narrowing boundaries (stresses range analysis / overflow-check elimination in the optimiser)"""
+        r = self.r
+        t = r.choice([U256, U256, ("int", 128, False), ("int", 64, False), ("int", 256, True), ("int", 128, True), ("int", 8, False)])
+        lo, hi = int_bounds(t)
+        a0 = E("var", t, name="a0", id=0)
+        a1 = E("var", t, name="a1", id=1)
+
+        def lim():
+            return min(r.choice([2, 3, 10, 50, 100, 128, 255, 256, 1000]), hi)
+
+        def narrow(x, L):
+            k = r.choice(["mod", "mod", "and", "min", "none"])
+            if k == "mod":
+                return E("bin", t, op="Mod", a=x, b=E("const", t, v=L))
+            if k == "and" and lo == 0:
+                m = 1
+                while m * 2 <= L:
+                    m *= 2
+                return E("bin", t, op="BAnd", a=x, b=E("const", t, v=max(m - 1, 1)))
+            if k == "min":
+                return E("min", t, a=x, b=E("const", t, v=L))
+            return x
+        L1, L2 = lim(), lim()
+        op = r.choice(["Sub", "Sub", "Sub", "Add", "Mul"])
+        shape = r.choice(["expr", "expr", "assert", "if"])
+        if shape == "expr":
+            body = [S("return", e=E("bin", t, op=op, a=narrow(a0, L1), b=narrow(a1, L2)))]
+        elif shape == "assert":
+            body = [S("assert", e=E("cmp", BOOL, op="Lt", a=a0, b=E("const", t, v=L1))),
+                    S("assert", e=E("cmp", BOOL, op=r.choice(["Lt", "Le"]), a=a1, b=E("const", t, v=L2))),
+                    S("return", e=E("bin", t, op=op, a=a0, b=a1))]
+        else:
+            body = [S("if", c=E("and", BOOL, a=E("cmp", BOOL, op="Lt", a=a0, b=E("const", t, v=L1)),
+                                b=E("cmp", BOOL, op="Le", a=a1, b=E("const", t, v=L2))),
+                      th=[S("return", e=E("bin", t, op=op, a=a0, b=a1))], el=[]),
+                    S("return", e=E("bin", t, op=op, a=narrow(a0, L1), b=narrow(a1, L2)))]
+        f = Fun(f"p{idx}", [("a0", t), ("a1", t)], t, body, True)
+        f.probe = t
+        W = 2 ** 256
+        cands = sorted({0, 1, L1 - 1, L1, L1 + 1, L2 - 1, L2, L2 + 1, 2 * L1 + 1, L1 + L2, hi, hi - 1, max(lo, -1), max(lo, -L1), lo})
+        cands = [c for c in cands if lo <= c <= hi]
+        calls = []
+        for _ in range(7):
+            a, b = r.choice(cands), r.choice(cands)
+            calls.append([a % W, b % W])
+        calls.append([(L1 - 1 if L1 - 1 <= hi else 0) % W, (L2 - 1) % W])      # narrowed a < narrowed b when L1 < L2
+        calls.append([1 % W, (L2 - 1) % W])
+        f.probe_calls = calls
+        return f
+
+    def constfold_probe_function(self, idx):
+        """operands that become constants only inside the optimiser: local variables holding literals, and literal arguments of
+        an internal helper (inlined at -O3); signed // and % with negative operands included"""
+        r = self.r
+        t = r.choice([("int", 256, True), ("int", 128, True), ("int", 8, True), ("int", 64, True), U256, ("int", 8, False)])
+        lo, hi = int_bounds(t)
+
+        def cv():
+            v = r.choice([1, 2, 3, 7, 10, 100, hi, hi - 1] + ([-1, -2, -3, -7, -10, lo, lo + 1] if lo < 0 else []))
+            return min(max(v, lo), hi)
+        op = r.choice(["Div", "Mod", "Div", "Mod", "Mul", "Add", "Sub", "cmp", "min"])
+        x, y = cv(), cv()
+
+        def mk(a, b):
+            if op == "cmp":
+                return E("cmp", BOOL, op=r.choice(CMPS), a=a, b=b)
+            if op == "min":
+                return E(r.choice(["min", "max"]), t, a=a, b=b)
+            return E("bin", t, op=op, a=a, b=b)
+        ret = BOOL if op == "cmp" else t
+        if r.random() < 0.5 and "internal" in self.feat:
+            # helper(a, b) called with literal arguments
+            hi_ = len(self.prog.ints)
+            pa, pb = E("var", t, name="a0", id=0), E("var", t, name="a1", id=1)
+            self.prog.ints.append(Fun(f"g{hi_}", [("a0", t), ("a1", t)], ret, [S("return", e=mk(pa, pb))], False))
+            self.writes[hi_] = set()
+            call = E("call", ret, name=f"g{hi_}", id=hi_, args=[E("const", t, v=x), E("const", t, v=y)])
+            body = [S("return", e=call)]
+        else:
+            body = [S("assign", base=("loc", "ca", 0), path=[], e=E("const", t, v=x), decl=t),
+                    S("assign", base=("loc", "cb", 1), path=[], e=E("const", t, v=y), decl=t),
+                    S("return", e=mk(E("var", t, name="ca", id=0), E("var", t, name="cb", id=1)))]
+        f = Fun(f"p{idx}", [], ret, body, True)
+        f.probe = t
+        f.probe_calls = [[]]
+        return f
+
     def probe_args(self, t):
         """three argument pairs: a < b, a > b, a == b, around small values and the type's boundaries"""
         r = self.r
@@ -1147,6 +1236,8 @@ class Gen:
                 p.exts.append(self.probe_function(len(p.exts)))
             if "bytes" in self.feat and (self.bytes_types or r.random() < 0.3):
                 p.exts.append(self.bytes_probe_function(len(p.exts)))
+            p.exts.append(self.narrow_probe_function(len(p.exts)))
+            p.exts.append(self.constfold_probe_function(len(p.exts)))
         return p
 
     # ---------------------------------------------------------------- calls
@@ -1203,14 +1294,18 @@ class Gen:
             args = [self.arg_word(t) if t[0] in ("int", "bool", "addr") else self.arg_tree(t) for _, t in f.params]
             value = 0
             x = self.r.random()
-            if "value" in self.feat and (f.payable and x < 0.6 or x < 0.05):
-                value = self.r.choice([1, 2, 7, 10 ** 18])
+            if "value" in self.feat and (f.payable and x < 0.6 or x < 0.15):
+                # non-payable functions also get non-zero values, odd AND even (the non-payable check must reject both)
+                value = self.r.choice([1, 2, 2, 4, 7, 256, 10 ** 18, 2 ** 64])
             sender = SENDER2 if ("sender" in self.feat and self.r.random() < 0.4) else DEPLOYER
             out.append(Call(i, args, sender, value))
         for i, f in enumerate(prog.exts):
             if getattr(f, "probe", None) is not None:
-                for pair in self.probe_args(f.probe):
-                    out.insert(self.r.randrange(len(out) + 1), Call(i, pair))
+                pairs = f.probe_calls if getattr(f, "probe_calls", None) else self.probe_args(f.probe)
+                for pair in pairs:
+                    out.insert(self.r.randrange(len(out) + 1), Call(i, list(pair)))
+                if "value" in self.feat and self.r.random() < 0.5 and pairs:
+                    out.insert(self.r.randrange(len(out) + 1), Call(i, list(pairs[0]), DEPLOYER, self.r.choice([2, 4, 1, 2 ** 32])))
             if getattr(f, "bprobe", None) is not None:
                 for args in self.bytes_probe_calls(f):
                     out.insert(self.r.randrange(len(out) + 1), Call(i, args))
